@@ -1600,6 +1600,309 @@ def check_purity(ctx, tu):
         ctx.broken('%s self-check: expected exactly last_r, last_s to be reported on %s, got %s' % (R, SHAPE_DRIVER, own))
 
 
+# ============================================================================================
+#  R-C06-pole / R-C06-transl / R-C06-align: three structural clauses of the transform headers
+# ============================================================================================
+MATH_HEADERS_PREFIX = 'rkcommon/math/'
+
+
+def _hdr_fns(tu, files=None, prefix=None):
+    for f in tu.functions.values():
+        ff = tu.fn_file(f)
+        if (files and any(ff == x or ff.endswith('/' + x) for x in files)) or (prefix and ff.startswith(prefix)):
+            if tu.body(f) is not None:
+                yield f
+
+
+def _opname(tu, n):
+    """(operator, operands) of a built-in binary/unary operator, an overloaded one, or the unresolved form it has inside a template"""
+    k = n.get('kind')
+    if k == 'BinaryOperator':
+        return n.get('opcode'), tu.kids(n)
+    if k == 'UnaryOperator':
+        return 'u' + n.get('opcode', ''), tu.kids(n)
+    if k == 'CXXOperatorCallExpr':
+        ks = tu.kids(n)
+        if ks:
+            c = tu.strip(ks[0], casts=True)
+            nm = (c or {}).get('name') or (tu.sd(n).get('q', '') or '').split('::')[-1]
+            if not nm and c is not None and c.get('kind') == 'DeclRefExpr':
+                nm = c.get('referencedDecl', {}).get('name', '')
+            if nm and nm.startswith('operator'):
+                op = nm[len('operator'):]
+                return ('u' + op if len(ks) == 2 else op), ks[1:]
+    return None, []
+
+
+def _callee_name(tu, n):
+    if n.get('kind') != 'CallExpr':
+        return None
+    q = tu.sd(n).get('q')
+    if q:
+        return q.split('::')[-1]
+    ks = tu.kids(n)
+    c = tu.strip(ks[0], casts=True) if ks else None
+    if c is not None and c.get('kind') in ('UnresolvedLookupExpr', 'DeclRefExpr'):
+        return c.get('name') or c.get('referencedDecl', {}).get('name')
+    return None
+
+
+def _interval(tu, e, depth=0):
+    """(lo, hi, uses_trig) of a scalar expression built from literals, sin/cos values, + - * and single-assignment locals; None otherwise"""
+    e = tu.strip(e, casts=True)
+    if e is None or depth > 12:
+        return None
+    k = e.get('kind')
+    cv = tu.sd(e).get('cv')
+    if k in ('IntegerLiteral', 'FloatingLiteral'):
+        try:
+            v = float(e.get('value'))
+        except (TypeError, ValueError):
+            return None
+        return (v, v, False)
+    if cv is not None:
+        try:
+            return (float(cv), float(cv), False)
+        except ValueError:
+            pass
+    if k == 'ParenExpr':
+        return _interval(tu, tu.kids(e)[0], depth + 1)
+    if k in ('CXXFunctionalCastExpr', 'CXXStaticCastExpr', 'CStyleCastExpr', 'CXXUnresolvedConstructExpr', 'CXXConstructExpr', 'InitListExpr') \
+            and len(tu.kids(e)) == 1:
+        return _interval(tu, tu.kids(e)[0], depth + 1)
+    if k == 'CallExpr':
+        nm = _callee_name(tu, e)
+        if nm in ('sin', 'cos', 'sinf', 'cosf'):
+            # only an angle that is a parameter of the function (its domain is the stated one) and that no branch condition restricts
+            args = tu.kids(e)[1:]
+            d = tu.nodes.get(tu.ref_decl(args[0])) if args else None
+            if d is None or d.get('kind') != 'ParmVarDecl':
+                return None
+            fn = tu.par(d)
+            for x in (tu.walk(fn) if fn is not None else []):
+                if x.get('kind') in ('IfStmt', 'ConditionalOperator', 'WhileStmt', 'ForStmt') and tu.kids(x) and \
+                        any(tu.ref_decl(y) == d['id'] for y in tu.walk(tu.kids(x)[0]) if y.get('kind') == 'DeclRefExpr'):
+                    return None
+            return (-1.0, 1.0, True)
+        return None
+    if k == 'DeclRefExpr':
+        d = tu.nodes.get(e.get('referencedDecl', {}).get('id'))
+        if d is not None and d.get('kind') == 'VarDecl' and tu.kids(d):
+            # single assignment: no other write in the enclosing function
+            fn = tu.par(d)
+            for _ in range(40):
+                if fn is None or fn.get('id') in tu.functions:
+                    break
+                fn = tu.par(fn)
+            if fn is not None:
+                for x in tu.walk(fn):
+                    op, ops = _opname(tu, x)
+                    if op in ('=', '+=', '-=', '*=', '/=', 'u++', 'u--') and ops and tu.ref_decl(ops[0]) == d['id']:
+                        return None
+            init = [x for x in tu.kids(d) if not x.get('kind', '').endswith('Attr')]
+            return _interval(tu, init[-1], depth + 1) if init else None
+        return None
+    op, ops = _opname(tu, e)
+    if op in ('+', '-', '*') and len(ops) == 2:
+        a, b = _interval(tu, ops[0], depth + 1), _interval(tu, ops[1], depth + 1)
+        if a is None or b is None:
+            return None
+        if op == '+':
+            return (a[0] + b[0], a[1] + b[1], a[2] or b[2])
+        if op == '-':
+            return (a[0] - b[1], a[1] - b[0], a[2] or b[2])
+        ps = [x * y for x in a[:2] for y in b[:2]]
+        return (min(ps), max(ps), a[2] or b[2])
+    if op == 'u-' and len(ops) == 1:
+        a = _interval(tu, ops[0], depth + 1)
+        return None if a is None else (-a[1], -a[0], a[2])
+    return None
+
+
+def pole_sites(tu, fns):
+    """[(function, node, verdict, text)] for each division (or rcp) in the functions whose denominator is built from constants and sin/cos
+    values only: 'bad' when the range of the denominator contains 0"""
+    out = []
+    for f in fns:
+        for n in tu.walk(tu.body(f)):
+            op, ops = _opname(tu, n)
+            den = None
+            if op in ('/', '/=') and len(ops) == 2:
+                den = ops[1]
+            elif n.get('kind') == 'CallExpr' and _callee_name(tu, n) in ('rcp', 'rcp_safe') and len(tu.kids(n)) >= 2:
+                den = tu.kids(n)[1]
+            if den is None:
+                continue
+            iv = _interval(tu, den)
+            if iv is None or not iv[2]:
+                continue
+            if iv[0] <= 0.0 <= iv[1]:
+                out.append((f, n, 'bad', 'the denominator `%s` takes every value in [%g, %g] as the angle runs through its domain, 0 included: '
+                            'the result has a pole at that angle (inf/NaN entries there, and a relative error that grows without bound next to it)' % (
+                                tu.show(den)[:60], iv[0], iv[1])))
+            else:
+                out.append((f, n, 'ok', 'the denominator `%s` stays in [%g, %g]' % (tu.show(den)[:60], iv[0], iv[1])))
+    return out
+
+
+def transl_sites(tu, fns):
+    """[(function, node, verdict, text)] for xfmVector / xfmNormal taking an affine space: 'bad' where the translation member `p` of that
+    argument is read, or the whole argument is handed to a function of the headers that reads it"""
+    out = []
+    allf = list(fns)
+
+    def affine_param(f):
+        b = tu.body(f)
+        fd = tu.nodes.get(f['id'])
+        for x in (tu.kids(fd) if fd is not None else []):
+            if x.get('kind') == 'ParmVarDecl' and 'AffineSpace' in x.get('type', {}).get('qualType', ''):
+                return x
+        return None
+
+    def reads_p(f, pid, seen):
+        """does f read member p of its parameter pid, directly or through a callee that gets the whole parameter?"""
+        if f['id'] in seen:
+            return None
+        seen.add(f['id'])
+        for n in tu.walk(tu.body(f)):
+            if n.get('kind') in ('MemberExpr', 'CXXDependentScopeMemberExpr') and (n.get('name') or n.get('member')) == 'p':
+                base = tu.kids(n)
+                if base and tu.ref_decl(base[0]) == pid:
+                    return n
+            if n.get('kind') in ('CallExpr', 'CXXOperatorCallExpr', 'CXXConstructExpr'):
+                args = tu.kids(n)[1:] if n.get('kind') != 'CXXConstructExpr' else tu.kids(n)
+                for i, a in enumerate(args):
+                    if tu.ref_decl(a) == pid:
+                        nm = _callee_name(tu, n) if n.get('kind') == 'CallExpr' else None
+                        cf = tu.callee_fn(n)
+                        cands = [cf] if cf is not None and tu.body(cf) is not None else \
+                            [g for g in allf if nm and g['q'].split('::')[-1] == nm and g['id'] != f['id']]
+                        for g in cands:
+                            gp = affine_param(g)
+                            if gp is not None and reads_p(g, gp['id'], seen) is not None:
+                                return n
+        return None
+
+    for f in allf:
+        nm = f['q'].split('::')[-1]
+        if nm not in ('xfmVector', 'xfmNormal'):
+            continue
+        ap = affine_param(f)
+        if ap is None:
+            continue
+        w = reads_p(f, ap['id'], set())
+        if w is not None:
+            out.append((f, w, 'bad', '`%s` of an affine space uses the translation of its argument (`%s`): a direction / normal transform is the '
+                        'linear part only; bringing the translation in and cancelling it again costs an absolute error of eps*|p|, '
+                        'unrelated to the size of the transformed vector' % (nm, tu.show(w)[:50])))
+        else:
+            out.append((f, tu.body(f), 'ok', '`%s` uses the linear part of its affine argument only' % nm))
+    return out
+
+
+ALIGNED_ACCESS = re.compile(r'^_mm(256|512)?_(load|store|stream)_(ps|pd|si128|si256|si512|epi32|epi64)$')
+
+
+def align_sites(tu, fns):
+    """[(function, node, verdict, text)] for each aligned load/store intrinsic: 'bad' when the address is a member of an rkcommon record
+    reached from a parameter / this / a local without an alignment attribute and no record on the way declares one"""
+    out = []
+    for f in fns:
+        for n in tu.walk(tu.body(f)):
+            if n.get('kind') != 'CallExpr':
+                continue
+            nm = _callee_name(tu, n) or ''
+            m = ALIGNED_ACCESS.match(nm)
+            if not m:
+                continue
+            args = tu.kids(n)[1:]
+            if not args:
+                continue
+            a = tu.strip(args[0], casts=True)
+            if a is not None and a.get('kind') == 'UnaryOperator' and a.get('opcode') == '&':
+                a = tu.strip(tu.kids(a)[0], casts=True)
+            need = {'': 16, '256': 32, '512': 64}[m.group(1) or '']
+            aligned = False
+            cur = a
+            root = None
+            while cur is not None:
+                k = cur.get('kind')
+                if k == 'MemberExpr':
+                    fd = tu.nodes.get(cur.get('referencedMemberDecl'))
+                    rec = tu.par(fd) if fd is not None else None
+                    for x in (fd, rec):
+                        if x is not None and any(y.get('kind') == 'AlignedAttr' for y in x.get('inner', [])):
+                            aligned = True
+                    cur = tu.strip(tu.kids(cur)[0], casts=True) if tu.kids(cur) else None
+                elif k == 'ArraySubscriptExpr':
+                    cur = tu.strip(tu.kids(cur)[0], casts=True)
+                elif k == 'DeclRefExpr':
+                    root = tu.nodes.get(cur.get('referencedDecl', {}).get('id'))
+                    break
+                elif k == 'CXXThisExpr':
+                    root = cur
+                    break
+                else:
+                    break
+            if root is None:
+                out.append((f, n, 'skip', 'address `%s` not followed' % tu.show(args[0])[:50]))
+                continue
+            qt = root.get('type', {}).get('qualType', '')
+            if any(y.get('kind') == 'AlignedAttr' for y in root.get('inner', [])) or '__m' in qt:
+                aligned = True
+            if root.get('kind') != 'CXXThisExpr' and re.search(r'\*\s*(const)?\s*$', qt) and (a is None or a.get('kind') == 'DeclRefExpr'):
+                out.append((f, n, 'skip', 'address comes from the pointer `%s`' % root.get('name')))
+                continue
+            if aligned:
+                out.append((f, n, 'ok', '`%s`: the object carries an alignment attribute' % tu.show(args[0])[:50]))
+            else:
+                out.append((f, n, 'bad', '`%s` requires a %d-byte aligned address, but `%s` is a plain member / variable of a type that declares no '
+                            'alignment (rkcommon pads vec3fa to 16 bytes, it does not align it: alignof is 4): the access faults for an '
+                            'object at an address that is not a multiple of %d (record member, packed array element)' % (
+                                nm, need, tu.show(args[0])[:50], need)))
+    return out
+
+
+def check_structure(ctx, tu):
+    RP, RT, RA = 'R-C06-pole', 'R-C06-transl', 'R-C06-align'
+    ctx.describe(RP, 'no division in the transform headers by an expression of sin/cos values whose range contains 0: rotate is defined for '
+                     'every angle of the domain, half turns included')
+    ctx.describe(RT, 'xfmVector / xfmNormal of an affine space never read its translation (directly or through xfmPoint): the result is the '
+                     'linear part (inverse transpose) applied to the vector, independent of p')
+    ctx.describe(RA, 'no aligned SIMD load/store intrinsic in rkcommon/math on an object whose type declares no alignment (vec3fa and the '
+                     'spaces built from it are padded, not aligned)')
+    pure = list(_hdr_fns(tu, files=PURE_HEADERS))
+    for R, sites, what, keyf in (
+            (RP, pole_sites(tu, pure), 'division by sin/cos expressions', 'pole-in-angle-domain'),
+            (RT, transl_sites(tu, pure), 'xfmVector / xfmNormal overloads taking an affine space', 'reads-translation'),
+            (RA, align_sites(tu, list(_hdr_fns(tu, prefix=MATH_HEADERS_PREFIX))), 'aligned load/store intrinsics', 'aligned-access-to-unaligned-type')):
+        nb = 0
+        for f, n, v, why in sites:
+            fn = f['q'].replace('rkcommon::math::', '')
+            inst = '%s %s' % (fn, f['fty'][:80])
+            if v == 'bad':
+                nb += 1
+                ctx.violation(R, inst, why, tu.loc(n) if tu.loc(n) != '?' else tu.fn_loc(f),
+                              key='%s|%s|%s|%s' % (R, tu.fn_file(f), fn.split('<')[0], keyf))
+            elif v == 'ok':
+                ctx.ok(R, inst, why, tu.fn_loc(f))
+            else:
+                ctx.ok(R, inst, 'not decided here (%s)' % why, tu.fn_loc(f), nontrivial=False)
+        if not sites:
+            ctx.ok(R, 'transform headers', 'no %s in the parsed functions' % what, PURE_HEADERS[0], nontrivial=False)
+    ctx.floor(RT, sum(1 for s_ in transl_sites(tu, pure)), 2, 'xfmVector / xfmNormal overloads for affine spaces (template patterns, AffineSpace.h)')
+    # self-check on the driver's own examples
+    own = [f for f in tu.functions.values() if f['q'].startswith('rkverif_c06::') and tu.body(f) is not None]
+    got = {}
+    for f, n, v, why in pole_sites(tu, own) + transl_sites(tu, own) + align_sites(tu, own):
+        got.setdefault(f['q'].split('::')[-1], set()).add(v)
+    want = {'versine_pole': {'bad'}, 'versine_ok': {'ok'}, 'xfmVector': {'bad'}, 'xfmNormal': {'ok'}, 'load_padded': {'bad'},
+            'load_aligned_local': {'ok'}}
+    got = {k: v for k, v in got.items() if k in want}
+    if got != want:
+        ctx.broken('R-C06-pole/transl/align self-check: verdicts on %s are %s, expected %s' % (SHAPE_DRIVER, got, want))
+
+
 def run(ctx):
     R = 'R-C06'
     ctx.describe(R, 'lhs and rhs of the identity driver have the same exact rational-function normal form for every output '
@@ -1725,6 +2028,7 @@ def run(ctx):
     check_orthogonal(ctx, tu)
     check_frame(ctx, tu)
     check_purity(ctx, tu)
+    check_structure(ctx, tu)
     ctx.extra['ir_units'] = ir_units
     ctx.extra['programs'] = len(ir_units)
     ctx.extra['disagreements_checked'] = len(ctx.obl)
